@@ -374,6 +374,9 @@ def gen_case(rng):
         c = gen_job(rng)
     c["mode"] = "fresh" if rng.random() < 0.5 else "shared"
     c["nopub"] = []
+    # a quarter of the jobs travel as the gateway submits them: written by router._spawn_local as a job-spec file and read back
+    # by cascade.benchmarks.get_job before any task runs (the declaration order of output_schema IS the yield order)
+    c["via_gateway"] = rng.random() < 0.25
     r = rng.random()
     if r < 0.55:
         # several tasks per TaskSequence (consecutive in topological order), with its own publish subset: an unpublished
@@ -960,6 +963,8 @@ def _count(ctx, case, real):
     ctx.count("cases")
     ctx.count("kind:" + case["kind"])
     built = real["built"]
+    if built.get("gateway"):
+        ctx.count("via_gateway:" + built["gateway"])
     if built["lower_error"]:
         ctx.count("lower_error:" + built["lower_error"])
     if built.get("static_string_equals_input_name"):
